@@ -76,7 +76,8 @@ props["C15"] = {
     "runs": [
         run("root", "VxC08Time", {"N": 3, "M": 5}, {"N": 4, "M": 6}),
         run("root", "VxC15Monotone", {"N": 3, "M": 4}, {"N": 4, "M": 4}),
-        run("root", "VxC15Exact", {"N": 4}, {"N": 6}),
+        run("root", "VxC15Exact", {"N": 4}, {"N": 5}, note="requested instants on the second grid and a nanosecond / 999 microseconds past it"),
+        run("root", "VxC15Exact", None, {"N": 6, "FRAC": 0}, tier="thorough", note="instants on the second grid only, one more file"),
         run("file", "VxC15FileTimestamp", {}, {}, note="file backend: listed CreatedAt = LTX header timestamp"),
         run("root", "VxC15Restore", {}, {}, note="Replica.Restore with a timestamp, a snapshot uploaded ahead of its level-0 file"),
         run("root", "VxC15SnapshotStamp", {}, {}, note="a snapshot that waited for the executor behind a sync round is stamped no earlier than the TXID it covers (interleaving point: lockExec)"),
